@@ -227,7 +227,16 @@ impl Run<'_> {
                             continue;
                         }
                     }
-                    self.one(cfg, &col, &p, case, j, out);
+                    // the two `sometimes` collectors change their mind between invocations of one
+                    // callsite (every second vector runs under the opposite answer): each
+                    // invocation is judged by the answer in force when it is made
+                    let eff = match cfg {
+                        Cfg::DynOn if j % 2 == 1 => Cfg::DynOff,
+                        Cfg::DynOff if j % 2 == 1 => Cfg::DynOn,
+                        c => c,
+                    };
+                    col.dyn_on.store(matches!(eff, Cfg::DynOn), std::sync::atomic::Ordering::SeqCst);
+                    self.one(eff, &col, &p, case, j, out);
                     if !forms_done {
                         forms_done = true;
                         out.distinct_str(&format!("{}|{}|{}|{}", case.mac, case.form, case.types, cfg.name()));
